@@ -1,10 +1,10 @@
 (* Properties_C02.v -- the AMG cycle is a fixed linear, symmetric operator.
    Statements only; proofs in AmgProofs2.v (lock-step lemma), AmgProofs3.v (A1), AmgProofs4.v /
-   AmgProofs5.v (A2), AmgProofs6.v / AmgProofs7.v (A3).  Model: Amg.v cycle/apply (amgcl/amg.hpp:289-297, 515-553),
+   AmgProofs5.v (A2), AmgProofs6.v - AmgProofs9.v (A3).  Model: Amg.v cycle/apply (amgcl/amg.hpp:289-297, 515-553),
    smoothers Relax.v, exact coarse solve DenseSolve.v. *)
 From Coq Require Import QArith Qcanon.
 From Amgcl Require Import Scalar QcInst Vec Crs Kernels KernelsProofs MatOps Relax DenseSolve Amg AmgExec
-  AmgProofs AmgProofs2 AmgProofs3 AmgProofs4 AmgProofs5 AmgProofs6 AmgProofs7 AmgProofs8 AmgExamples.
+  AmgProofs AmgProofs2 AmgProofs3 AmgProofs4 AmgProofs5 AmgProofs6 AmgProofs7 AmgProofs8 AmgProofs9 AmgExamples.
 Local Close Scope Qc_scope.
 Local Close Scope Q_scope.
 Local Open Scope S_scope.
@@ -277,11 +277,54 @@ Theorem C02_apply_symmetric_full_built_gs {S : Scalar} (Sft : Sfield S) (Seqb : 
 Proof. exact (built_apply_sym_full_gs Sft Seqb Hadj ce dc ml sc ts M k nc pc). Qed.
 Print Assumptions C02_apply_symmetric_full_built_gs.
 
-(* FULL STATEMENT (unproved), remaining part of A3:
-   solve_sym (nrows A) (mk_solve_exact A) for symmetric non-singular A (needs the correctness
-   of the Gauss-Jordan solve, A (solve f) = f); it is a hypothesis of the *_built theorems and
-   is void for direct_coarse = false.
-   The non-symmetry for npre <> npost is exhibited on the concrete hierarchy below
+(* the exact coarse solve (Gauss-Jordan with search for a non-zero pivot) is correct over a
+   field, hence a symmetric operator for symmetric matrices *)
+Theorem C02_exact_solve_correct {S : Scalar} (Sft : Sfield S) (Seqb : seqb_spec S) (A : crs S) f y :
+  ncols A = nrows A -> length f = nrows A -> dense_solve A f = Some y ->
+  forall i, i < nrows A -> Ax A y i = vget f i.
+Proof. exact (dense_solve_correct Sft Seqb A f y). Qed.
+Print Assumptions C02_exact_solve_correct.
+
+Theorem C02_exact_solve_symmetric {S : Scalar} (Sft : Sfield S) (Seqb : seqb_spec S) (A : crs S) :
+  ncols A = nrows A -> solvable A = true -> sym_mat (nrows A) A ->
+  solve_sym (nrows A) (mk_solve_exact A).
+Proof. exact (mk_solve_exact_sym Sft Seqb A). Qed.
+Print Assumptions C02_exact_solve_symmetric.
+
+(* A3 for the complete executable model: hierarchy from amg_init, Jacobi / SPAI-0 resp.
+   Gauss-Seidel, exact coarse solve; npre = npost = k, any ncycle, pre_cycles = pc + 1 *)
+Theorem C02_apply_symmetric_exact_built {S : Scalar} (Sft : Sfield S) (Seqb : seqb_spec S)
+  (Hadj : forall a : S, sadj a = a) kd ce dc ml sc ts (M : crs S) k nc pc :
+  sym_kind kd -> wf M = true -> sym_mat (nrows M) M -> ts_sym (nrows M) ts ->
+  (forall A, In (LSolve A) (amg_init ce dc ml (coarse_op_of sc) ts M) ->
+             solvable A = true /\ sym_mat (nrows A) A) ->
+  let lvls := std_levels kd (amg_init ce dc ml (coarse_op_of sc) ts M) in
+  (pc = 0 \/ nosolve_top lvls) ->
+  forall scr1 scr2 f g x1 x2,
+  scratch_wf lvls scr1 -> scratch_wf lvls scr2 ->
+  length f = nrows M -> length g = nrows M -> length x1 = nrows M -> length x2 = nrows M ->
+  dot (fst (apply k k nc (Datatypes.S pc) lvls scr1 f x1)) g =
+  dot f (fst (apply k k nc (Datatypes.S pc) lvls scr2 g x2)).
+Proof. exact (built_apply_sym_exact Sft Seqb Hadj kd ce dc ml sc ts M k nc pc). Qed.
+Print Assumptions C02_apply_symmetric_exact_built.
+
+Theorem C02_apply_symmetric_exact_built_gs {S : Scalar} (Sft : Sfield S) (Seqb : seqb_spec S)
+  (Hadj : forall a : S, sadj a = a) ce dc ml sc ts (M : crs S) k nc pc :
+  wf M = true -> sym_mat (nrows M) M -> ts_sym (nrows M) ts ->
+  (forall A, In (LSolve A) (amg_init ce dc ml (coarse_op_of sc) ts M) ->
+             solvable A = true /\ sym_mat (nrows A) A) ->
+  (forall l, In l (amg_init ce dc ml (coarse_op_of sc) ts M) -> gs_diag_ok (ld_A l)) ->
+  let lvls := std_levels RGS (amg_init ce dc ml (coarse_op_of sc) ts M) in
+  (pc = 0 \/ nosolve_top lvls) ->
+  forall scr1 scr2 f g x1 x2,
+  scratch_wf lvls scr1 -> scratch_wf lvls scr2 ->
+  length f = nrows M -> length g = nrows M -> length x1 = nrows M -> length x2 = nrows M ->
+  dot (fst (apply k k nc (Datatypes.S pc) lvls scr1 f x1)) g =
+  dot f (fst (apply k k nc (Datatypes.S pc) lvls scr2 g x2)).
+Proof. exact (built_apply_sym_exact_gs Sft Seqb Hadj ce dc ml sc ts M k nc pc). Qed.
+Print Assumptions C02_apply_symmetric_exact_built_gs.
+
+(* The non-symmetry for npre <> npost is exhibited on the concrete hierarchy below
    (C02_example_asymmetric_when_npre_ne_npost).
 
    FULL STATEMENT (unproved), B1 contraction in quadratic-form form (ordered field):
@@ -348,6 +391,20 @@ Proof.
 Qed.
 Print Assumptions C02_apply_symmetric_gs_Qc.
 
+Theorem C02_apply_symmetric_exact_Qc kd ce dc ml sc ts (M : crs QcS) k nc pc :
+  sym_kind kd -> wf M = true -> sym_mat (nrows M) M -> ts_sym (nrows M) ts ->
+  (forall A, In (LSolve A) (amg_init ce dc ml (coarse_op_of sc) ts M) ->
+             solvable A = true /\ sym_mat (nrows A) A) ->
+  let lvls := std_levels kd (amg_init ce dc ml (coarse_op_of sc) ts M) in
+  (pc = 0 \/ nosolve_top lvls) ->
+  forall scr1 scr2 f g x1 x2,
+  scratch_wf lvls scr1 -> scratch_wf lvls scr2 ->
+  length f = nrows M -> length g = nrows M -> length x1 = nrows M -> length x2 = nrows M ->
+  dot (fst (apply k k nc (Datatypes.S pc) lvls scr1 f x1)) g =
+  dot f (fst (apply k k nc (Datatypes.S pc) lvls scr2 g x2)).
+Proof. exact (built_apply_sym_exact QcS_field QcS_eqb (fun a => eq_refl) kd ce dc ml sc ts M k nc pc). Qed.
+Print Assumptions C02_apply_symmetric_exact_Qc.
+
 (* ================================================================== *)
 (* non-vacuity: the hypothesis sets hold on a concrete 3-level hierarchy over Qc
    (AmgExampleData.v: 1D Laplacian n = 4, two pairwise aggregations, damped Jacobi 2/3,
@@ -393,6 +450,21 @@ Proof.
   - apply (ts_symb_ok QcS_eqb). vm_compute. reflexivity.
   - intros A HA. exfalso. apply (build_no_solve _ _ _ _ _ _ _ HA).
   - apply (gs_levels_check QcS_eqb). vm_compute. reflexivity.
+Qed.
+
+(* the hierarchy that ends in the direct solver: all side conditions of
+   C02_apply_symmetric_exact_built(_gs) hold *)
+Example C02_example_A3_exact_hypotheses :
+  wf exM = true /\ sym_mat (nrows exM) exM /\ ts_sym (nrows exM) exTs /\
+  (forall A, In (LSolve A) exH -> solvable A = true /\ sym_mat (nrows A) A) /\
+  (forall l, In l exH -> gs_diag_ok (ld_A l)) /\ nosolve_top exLvls /\ nosolve_top exLvlsGSd.
+Proof.
+  split; [vm_compute; reflexivity|].
+  split; [apply (sym_matb_ok QcS_eqb); vm_compute; reflexivity|].
+  split; [apply (ts_symb_ok QcS_eqb); vm_compute; reflexivity|].
+  split; [apply (solve_sym_check_ok QcS_eqb); vm_compute; reflexivity|].
+  split; [apply (gs_levels_check QcS_eqb); vm_compute; reflexivity|].
+  split; exact I.
 Qed.
 
 (* symmetry needs the symmetric schedule: with npre = 1, npost = 0 (and with npre = 2, npost = 1)
